@@ -383,7 +383,7 @@ def plan_C04(ctx):
                          "Code: every real call made by the explorations (fresh, resumed, shifted) runs under recover + watchdog; "
                          "offsets checked; every exported PField dereferenced against the visible buffer (exact capacity).")
     scalar_models(ctx)
-    msg_models(ctx, ["hdrna", "msg"] if ctx.quick else ["hdr", "hdrv", "hdrna", "msg", "msgs"])
+    msg_models(ctx, ["hdrna", "msg"] if ctx.quick else ["hdrna", "msg", "msgs"])        # (hdr / hdrv: thorough tiers of C02 and C03)
     sub_models(ctx, 2)
     sub_traces(ctx, 400 if ctx.quick else 2500)
     explore_sub(ctx, ["C04"], start=(0, 3), shifts=[1, 65000])
